@@ -55,34 +55,62 @@ Definition late_ph (p : cph) : Prop :=
   end.
 
 (* a call made once the reader is gone and the reply channel is closed *)
-Definition late_call (s : st) (i : nat) : Prop :=
+Definition late_call (s : st) (i serial cost : nat) : Prop :=
   s_rd s = RdDone /\ closed CRet s = true /\
-  exists serial cost p, nth_error (s_tasks s) i = Some (TCall serial cost false p) /\ late_ph p.
+  exists p, nth_error (s_tasks s) i = Some (TCall serial cost false p) /\ late_ph p.
 
-Lemma late_call_step c l s s' i : late_call s i -> step c l s = Some s' -> late_call s' i.
+Lemma late_call_step c l s s' i serial cost : late_call s i serial cost -> step c l s = Some s' -> late_call s' i serial cost.
 Proof.
-  intros (Hr & Hc & serial & cost & p & Hi & Hp) Hs. destruct l as [n| |j| |j]; unfold step in Hs; rewrite ?Hr in Hs; try discriminate.
+  intros (Hr & Hc & p & Hi & Hp) Hs. destruct l as [n| |j| |j]; unfold step in Hs; rewrite ?Hr in Hs; try discriminate.
   pose proof (tstep_frame _ _ _ _ Hs) as (Hr' & _ & _ & _ & Hoth).
   assert (Hc' : closed CRet s' = true).
   { unfold closed, has_key in *. destruct (tstep_senders _ _ _ _ Hs) as [E|[r E]]; rewrite E; [assumption | cbn [existsb chan_of chan_eqb orb]; assumption]. }
   split; [congruence|]. split; [assumption|].
-  destruct (Nat.eq_dec j i) as [->|Hne]; [|exists serial, cost, p; split; [rewrite Hoth by lia; assumption | assumption]].
+  destruct (Nat.eq_dec j i) as [->|Hne]; [|exists p; split; [rewrite Hoth by lia; assumption | assumption]].
   assert (Hlt : i < length (s_tasks s)) by (eapply nth_error_lt; eassumption).
   unfold tstep in Hs. rewrite Hi in Hs. destruct p as [|x|x|o]; cbn [cstep] in Hs.
-  - inversion Hs; subst. exists serial, cost, (CSend (new_rx c CRet s)). cbn. now rewrite nth_error_set_nth_eq.
+  - inversion Hs; subst. exists (CSend (new_rx c CRet s)). cbn. now rewrite nth_error_set_nth_eq.
   - destruct (send_try c s cost) as [ok s1] eqn:E. apply send_try_rd in E. destruct E as (_ & _ & Et & _).
-    destruct ok; inversion Hs; subst; [exists serial, cost, (CWait x) | exists serial, cost, (CDone OAborted)]; cbn; rewrite Et;
+    destruct ok; inversion Hs; subst; [exists (CWait x) | exists (CDone OAborted)]; cbn; rewrite Et;
       rewrite nth_error_set_nth_eq by assumption; (split; [reflexivity|]); [exact Hp | now right].
-  - cbn in Hp. rewrite Hp in Hs. rewrite Hc in Hs. inversion Hs; subst. exists serial, cost, (CDone OPipe). cbn.
+  - cbn in Hp. rewrite Hp in Hs. rewrite Hc in Hs. inversion Hs; subst. exists (CDone OPipe). cbn.
     rewrite nth_error_set_nth_eq by assumption. split; [reflexivity | now left].
   - discriminate.
 Qed.
 
-Theorem later_call_fails c s i : late_call s i -> forall tr s', run c tr s = Some s' -> late_call s' i.
+Theorem later_call_inv c s i serial cost : late_call s i serial cost -> forall tr s', run c tr s = Some s' -> late_call s' i serial cost.
 Proof.
   intros H tr. revert s H. induction tr as [|l tr IH]; intros s H s' Hrun; cbn [run] in Hrun.
   - now inversion Hrun; subst.
   - destruct (step c l s) as [s1|] eqn:E; [|discriminate]. eapply IH; [eapply late_call_step; eassumption | exact Hrun].
+Qed.
+
+Theorem later_call_fails c s i serial cost :
+  s_rd s = RdDone -> closed CRet s = true -> nth_error (s_tasks s) i = Some (TCall serial cost false CNew) ->
+  forall tr s', run c tr s = Some s' ->
+  exists p, nth_error (s_tasks s') i = Some (TCall serial cost false p) /\ late_ph p.
+Proof.
+  intros Hr Hc Hi tr s' Hrun.
+  assert (H0 : late_call s i serial cost) by (split; [assumption | split; [assumption | exists CNew; split; [assumption | exact I]]]).
+  destruct (later_call_inv c s i serial cost H0 tr s' Hrun) as (_ & _ & p & Hp & Hl). now exists p.
+Qed.
+
+(* what a waiting call ends with: a reply it was handed, or an error *)
+Lemma call_results c serial cost s x o s' :
+  cstep c s serial cost false (CWait x) = Some (CDone o, s') ->
+  (exists k m, o = OOk k /\ In (IMsg k) (x_inbox x) /\ nth_error (msgs c) k = Some m /\ i_class m = MReply serial) \/
+  (exists k m, o = OMErr k /\ In (IMsg k) (x_inbox x) /\ nth_error (msgs c) k = Some m /\ i_class m = MError serial) \/
+  is_err_outcome o = true.
+Proof.
+  cbn [cstep]. destruct (x_inbox x) as [|[k|e] rest].
+  - destruct (closed CRet s); intros H; inversion H; subst. right. right. reflexivity.
+  - unfold reply_for. destruct (nth_error (msgs c) k) as [m|] eqn:Hm; [|discriminate].
+    destruct (i_class m) as [s0|s0|rs] eqn:Hc; try discriminate.
+    + destruct (Nat.eqb s0 serial) eqn:E; [|discriminate]. apply Nat.eqb_eq in E. subst s0. intros H; inversion H; subst.
+      left. exists k, m. repeat split; try assumption. now left.
+    + destruct (Nat.eqb s0 serial) eqn:E; [|discriminate]. apply Nat.eqb_eq in E. subst s0. intros H; inversion H; subst.
+      right. left. exists k, m. repeat split; try assumption. now left.
+  - intros H; inversion H; subst. right. right. reflexivity.
 Qed.
 
 (* ---------------------------------------------------------------- no panic *)
@@ -222,3 +250,13 @@ Proof.
   { split; [|intros ch; cbn; destruct ch; lia]. intros m Hm. cbn in Hm. repeat (destruct Hm as [<-|Hm]; [cbn; lia|]). destruct Hm. }
   repeat split.
 Qed.
+
+Lemma race_exists : exists (c : cfg) (ts : list task) (tr : list label) (s : st),
+  wf c /\ forallb fresh_task ts = true /\ reach c ts tr s /\ stuck c s /\ ~ final s /\ raced s = true.
+Proof. exists race_cfg, race_tasks, race_trace, race_state. exact race_refutes. Qed.
+
+Definition full_statement : Prop :=
+  forall (c : cfg) (ts : list task) (tr : list label) (s : st),
+    wf c -> forallb fresh_task ts = true -> reach c ts tr s -> stuck c s -> final s.
+Lemma full_statement_refuted : ~ full_statement.
+Proof. intros H. destruct race_refutes as (Hwf & Hf & Hr & Hst & Hnf & _). exact (Hnf (H _ _ _ _ Hwf Hf Hr Hst)). Qed.
